@@ -700,3 +700,11 @@ func init() {
 	addRule("C01", Rule{ID: "C01.R8", Min: 1, Statement: createStatement, Run: createOnlyAfterUncachedNotFoundRule})
 	addRule("C02", Rule{ID: "C02.R5", Min: 1, Statement: createStatement, Run: createOnlyAfterUncachedNotFoundRule})
 }
+
+func init() {
+	// recorders, collectors and adapters are mutated through methods; a value receiver loses the update
+	addRule("C03", Rule{ID: "C03.R7", Min: 1, Statement: lostMutationStatement, Run: lostMutationRule(pkgControllers)})
+	addRule("C06", Rule{ID: "C06.R12", Min: 1, Statement: lostMutationStatement, Run: lostMutationRule(pkgControllers, pkgAdapters)})
+	addRule("C13", Rule{ID: "C13.R10", Min: 1, Statement: lostMutationStatement, Run: lostMutationRule(modPKO+"/internal/packages", pkgTransform)})
+	addRule("C12", Rule{ID: "C12.R9", Min: 1, Statement: lostMutationStatement, Run: lostMutationRule(pkgDynCache)})
+}
